@@ -4,7 +4,7 @@
    Statements only; proofs in Proofs/RegressionP.v. *)
 From Coq Require Import ZArith List Bool QArith Qcanon String.
 From TE Require Import Base.Val Base.Nd Base.Xq Algebra.Metric Algebra.MergeTree
-  Models.Aggregation Models.Aggregation2 Models.Regression Models.Stat Proofs.RegressionP Proofs.CovP Proofs.WassP.
+  Models.Aggregation Models.Aggregation2 Models.Regression Models.Stat Proofs.RegressionP Proofs.CovP Proofs.WassP Models.Fad Proofs.FadP.
 Import ListNotations.
 Open Scope list_scope.
 Open Scope Qc_scope.
@@ -145,6 +145,34 @@ Theorem ne_term_spec : forall x t w, x <> 0 -> 1 - x <> 0 -> w * t <> 0 -> w * (
   ne_term false x t w = {| f_k := 0 + 0; f_logs := [(- (w * t), vq x); (- (w * (1 - t)), vq (1 - x))] |}.
 Proof. exact ne_term_prob. Qed.
 
+(* ---- FrechetAudioDistance / gaussian_frechet_distance ---- *)
+(* partial sums -> moments: for the embedded frames `rows` of one side (n >= 2), compute()'s mean is the column mean and
+   its covariance  cov_partial/(n-1) - mean^T mean n/(n-1)  is the UNBIASED two-pass covariance scatter/(n-1) *)
+Theorem fad_moments_spec : forall d (rows : matq), (2 <= List.length rows)%nat ->
+  let n := qofnat (List.length rows) in
+  fad_mean n (colsums d rows) = vec_of d (fun i => sumQ (col i rows) / n)
+  /\ fad_cov n (colsums d rows) (gram d rows)
+     = mat_of d (fun i j => scatter (sumQ (col i rows) / n) (sumQ (col j rows) / n) (col i rows) (col j rows) / (n - 1)).
+Proof. exact fad_moments. Qed.
+(* distance = |mu_x - mu_y|^2 + tr cov_x + tr cov_y - 2 c, with the exact rational first two terms and
+   c = sum sqrt eig(cov_x cov_y) the only uninterpreted node (evaluated by the harness at 200 bits) *)
+Theorem frechet_structure : forall d s,
+  let pc := nrows (nget 0 s) in let pm := hd [] (nrows (nget 1 s)) in let pn := nsc (nget 2 s) in
+  let tc := nrows (nget 3 s) in let tm := hd [] (nrows (nget 4 s)) in let tn := nsc (nget 5 s) in
+  mkq 2 1 <= pn -> mkq 2 1 <= tn ->
+  fad_cmp d s =
+  let mx := fad_mean pn pm in let cx := fad_cov pn pm pc in let my := fad_mean tn tm in let cy := fad_cov tn tm tc in
+  rsub (radd (vq (sumQ (map sq (vsub mx my)))) (vq (trace cx + trace cy))) (rmul (VZ 2) (sqrt_eig_sum cx cy)).
+Proof. exact fad_cmp_structure. Qed.
+(* fewer than two frames on a side: non-finite covariance -> ValueError (since /repo e524ac4) *)
+Theorem fad_guard_too_few_frames : forall d s,
+  nsc (nget 2 s) < mkq 2 1 \/ nsc (nget 5 s) < mkq 2 1 -> fad_cmp d s = verr "ValueError".
+Proof. exact fad_cmp_guard. Qed.
+Example frechet_example :   (* mu (0,0) vs (1,2), cov I vs 4I: 5 + 2 + 8 - 2 c(I, 4I) *)
+  frechet [mkq 0 1; mkq 0 1] [[mkq 1 1; mkq 0 1]; [mkq 0 1; mkq 1 1]] [mkq 1 1; mkq 2 1] [[mkq 4 1; mkq 0 1]; [mkq 0 1; mkq 4 1]]
+  = rsub (radd (VQ 5 1) (VQ 10 1)) (rmul (VZ 2) (VT "trsqrtprod" [VL [VL [VQ 1 1; VQ 0 1]; VL [VQ 0 1; VQ 1 1]]; VL [VL [VQ 4 1; VQ 0 1]; VL [VQ 0 1; VQ 4 1]]])).
+Proof. vm_compute. reflexivity. Qed.
+
 (* ---- non-vacuity: the hypotheses are satisfiable and the models compute the expected values ---- *)
 Definition q (a : Z) (b : positive) : Qc := mkq a b.
 Definition ex_r2 : r2_cfg := {| r2_mode := 2; r2_p := 1; r2_w := None |}.
@@ -226,3 +254,6 @@ Print Assumptions cov_stream_spec.
 Print Assumptions cov_two_pass_spec.
 Print Assumptions cov_guard_too_few_samples.
 Print Assumptions wasserstein_cdf_spec.
+Print Assumptions fad_moments_spec.
+Print Assumptions frechet_structure.
+Print Assumptions fad_guard_too_few_frames.
